@@ -463,7 +463,7 @@ def c02(run, scratch):
     mc_builder(run, scratch, "mapper", "mapper variant (no parameter index) of the builder machine = declarative index")
     mc_builder(run, scratch, "cache" if t else "cache_quick", "cache-writer variant of the builder machine = declarative index")
     for cfg in (["blocks_thorough", "files_thorough", "records_thorough", "names_quick", "entries_quick", "ambig_thorough", "ranges_thorough"] if t else
-                ["blocks_quick", "files_quick", "names_quick", "ambig_quick", "ranges_quick"]):
+                ["blocks_quick", "files_quick", "names_quick", "ambig_quick"]):
         retrace_mc(run, scratch, cfg, "all", workers=14 if t else 10)
     retrace_trace(run, scratch, "Trace_Retrace_all", "all", 300 if t else 60, 300 if t else 150, SMALL_CORPUS,
                   workers=14 if t else 10)
@@ -485,7 +485,7 @@ def _replay_retrace(run, scratch, rec):
 
 for _k in ["entries1", "entries_quick", "entries_thorough", "files_quick", "files_thorough", "blocks_quick",
            "blocks_thorough", "records_quick", "records_thorough", "names_quick", "names_thorough", "ambig_quick",
-           "ambig_thorough"]:
+           "ambig_thorough", "ranges_quick", "ranges_thorough"]:
     REPLAYERS["MC_Retrace_" + _k] = _replay_retrace
 
 
